@@ -172,3 +172,131 @@ Proof.
   - rewrite Pfin. exact Eq.
   - rewrite Pfin, Eq. apply apply_updates_sorted. exact SS.
 Qed.
+
+(* ================= what Tendermint's set IS after the update: the top of the power index ================= *)
+Definition mem (a : bytes) (l : list bytes) : bool := existsb (beqb a) l.
+Lemma mem_in a l : mem a l = true <-> In a l.
+Proof.
+  unfold mem. rewrite existsb_exists. split.
+  - intros (x & Hx & B). apply beqb_eq in B. subst; auto.
+  - intros H. exists a. split; auto. apply beqb_refl.
+Qed.
+Lemma mem_notin a l : mem a l = false <-> ~ In a l.
+Proof.
+  rewrite <- mem_in. destruct (mem a l); split; intros H.
+  - discriminate.
+  - exfalso. apply H. reflexivity.
+  - intros X. discriminate.
+  - reflexivity.
+Qed.
+
+Section Walk.
+  Variable V : amap validator.
+  Lemma upd_loop_walk idx : forall n s prev total acc s' prev' total' acc',
+    vals s = V ->
+    (forall k a, In (k, a) idx -> exists v, aget V a = Some v /\ v_status v = 2%N /\ v_jailed v = false) ->
+    NoDup (map snd idx) -> asorted prev -> asorted (prevpow s) ->
+    (forall a, In a (map snd idx) -> aget prev a = aget (prevpow s) a) ->
+    upd_loop idx n s prev total acc = Some (s', prev', total', acc') ->
+    let walked := map snd (firstn n idx) in
+    asorted (prevpow s') /\
+    (forall a, aget prev' a = if mem a walked then None else aget prev a) /\
+    (forall a, In a walked -> exists v, aget V a = Some v /\ aget (prevpow s') a = Some (power_of (v_tokens v))) /\
+    (forall a, ~ In a walked -> aget (prevpow s') a = aget (prevpow s) a).
+  Proof.
+    induction idx as [|[k a] r IH]; intros n s prev total acc s' prev' total' acc' EV Hidx ND SP SS Link.
+    - destruct n; simpl; intros [= <- <- _ _]; (split; [auto|]); (split; [intros; reflexivity|]); (split; [intros ? []|auto]).
+    - destruct n; simpl.
+      { intros [= <- <- _ _]; (split; [auto|]); (split; [intros; reflexivity|]); (split; [intros ? []|auto]). }
+      unfold get_val. rewrite EV. destruct (Hidx k a (or_introl eq_refl)) as (v & Ev & St & J). rewrite Ev, J.
+      destruct (power_of (v_tokens v) =? 0); [discriminate|]. rewrite St. cbn [N.eqb Pos.eqb].
+      inversion ND as [|x0 l0 NI ND' Ex0]. clear Ex0.
+      match goal with |- context[let '(s1, acc1) := ?X in _] => destruct X as [s1 acc1] eqn:EX end.
+      intros E. set (cur := power_of (v_tokens v)) in *.
+      assert (Hidx' : forall k0 a0, In (k0, a0) r -> exists v0, aget V a0 = Some v0 /\ v_status v0 = 2%N /\ v_jailed v0 = false)
+        by (intros; eapply Hidx; right; eauto).
+      assert (SP1 : asorted (adel prev a)) by (apply adel_sorted; auto).
+      assert (S1 : vals s1 = V /\ asorted (prevpow s1) /\ aget (prevpow s1) a = Some cur /\
+                   (forall b, b <> a -> aget (prevpow s1) b = aget (prevpow s) b)).
+      { pose proof (Link a (or_introl eq_refl)) as La.
+        destruct (aget prev a) as [p|] eqn:Ep; [destruct (Z.eqb_spec p cur)|]; injection EX as <- _.
+        - subst p. split; [auto|]. split; [auto|]. split; [rewrite <- La; reflexivity|auto].
+        - cbn [vals prevpow set_prev]. repeat split; auto; [apply aset_sorted; auto|rewrite aget_aset by auto; rewrite beqb_refl; reflexivity|].
+          intros b Nb. rewrite aget_aset by auto. destruct (beqb a b) eqn:B; auto. apply beqb_eq in B. congruence.
+        - cbn [vals prevpow set_prev]. repeat split; auto; [apply aset_sorted; auto|rewrite aget_aset by auto; rewrite beqb_refl; reflexivity|].
+          intros b Nb. rewrite aget_aset by auto. destruct (beqb a b) eqn:B; auto. apply beqb_eq in B. congruence. }
+      destruct S1 as (EV1 & SS1 & A1 & O1).
+      assert (Link1 : forall b, In b (map snd r) -> aget (adel prev a) b = aget (prevpow s1) b).
+      { intros b Hb. assert (Nb : b <> a) by (intros ->; contradiction). rewrite aget_adel by auto.
+        destruct (beqb a b) eqn:B; [apply beqb_eq in B; congruence|]. rewrite O1 by auto. apply Link. right; auto. }
+      destruct (IH _ _ _ _ _ _ _ _ _ EV1 Hidx' ND' SP1 SS1 Link1 E) as (R0 & R1 & R2 & R3). cbn zeta in *.
+      cbn [firstn map snd]. split; [exact R0|]. split; [|split].
+      + intros b. rewrite R1. cbn [mem existsb]. fold (mem b (map snd (firstn n r))). rewrite aget_adel by auto.
+        destruct (beqb b a) eqn:Bba.
+        * apply beqb_eq in Bba. subst b. cbn [orb]. rewrite beqb_refl. destruct (mem a (map snd (firstn n r))); reflexivity.
+        * cbn [orb]. destruct (mem b (map snd (firstn n r))); auto. destruct (beqb a b) eqn:Bab; auto.
+          apply beqb_eq in Bab. subst. rewrite beqb_refl in Bba. discriminate.
+      + intros b [<-|Hb].
+        * exists v. split; auto. rewrite R3; auto. intros Hin. apply NI.
+          apply in_map_iff in Hin. destruct Hin as (x & Ex & Hx). apply in_map_iff. exists x. split; auto.
+          clear - Hx. revert Hx. generalize n. induction r as [|y r' IHr]; intros [|m] Hm; simpl in Hm; try contradiction.
+          destruct Hm as [<-|Hm]; [left; auto|right; eauto].
+        * apply R2. exact Hb.
+      + intros b Nb. rewrite R3 by (intros Hr; apply Nb; right; exact Hr). apply O1. intros ->. apply Nb. left; reflexivity.
+  Qed.
+End Walk.
+
+Theorem tm_set_is_top_of_index s s' ups : idx_sound s -> dsorted true (prevpow s) -> update_tm_validators s = Some (s', ups) ->
+  let walked := map snd (firstn (Z.to_nat (p_max_validators (pp s))) (rev (powidx s))) in
+  forall a, aget (prevpow s') a =
+            if mem a walked then option_map (fun v => power_of (v_tokens v)) (get_val s a) else None.
+Proof.
+  intros HS SS. unfold update_tm_validators.
+  destruct (upd_loop _ _ s (prevpow s) 0 []) as [[[[s1 leftover] total] acc]|] eqn:E; [|discriminate].
+  pose proof HS as (SV & SP & HI).
+  assert (Hidx : forall k a, In (k, a) (rev (powidx s)) -> exists v, aget (vals s) a = Some v /\ v_status v = 2%N /\ v_jailed v = false).
+  { intros k a Hin. apply in_rev in Hin. destruct (HI k a (in_aget _ _ _ SP Hin)) as (v & Ev & St & J & _). exists v; auto. }
+  assert (ND : NoDup (map snd (rev (powidx s)))).
+  { rewrite map_rev. apply NoDup_rev. eapply idx_addrs_nodup; eauto. }
+  destruct (upd_loop_walk (vals s) _ _ _ _ _ _ _ _ _ _ eq_refl Hidx ND SS SS (fun a _ => eq_refl) E) as (R0 & R1 & R2 & R3).
+  cbn zeta in *. set (walked := map snd (firstn (Z.to_nat (p_max_validators (pp s))) (rev (powidx s)))) in *.
+  destruct (fold_opt _ leftover s1) as [s2|] eqn:E2; [|discriminate].
+  pose proof (leftover_fold_prev _ _ _ E2) as P2. intros [= <- _] a.
+  assert (Pfin : forall x : list update, prevpow (match x with [] => s2 | _ :: _ => set_prev s2 (prevpow s2) total end) = prevpow s2)
+    by (intros [|? ?]; reflexivity).
+  rewrite Pfin, P2.
+  (* deleting the leftover addresses *)
+  assert (SL : asorted leftover).
+  { (* leftover is the shrunk copy of prevpow s: adel keeps sortedness *)
+    assert (G : forall idx n s0 prev total0 acc0 s0' prev' total0' acc0', asorted prev ->
+               upd_loop idx n s0 prev total0 acc0 = Some (s0', prev', total0', acc0') -> asorted prev').
+    { induction idx as [|[k0 a0] r0 IHi]; intros n0 s0 prev total0 acc0 s0' prev' total0' acc0' Sp0.
+      - destruct n0; simpl; intros [= _ <- _ _]; auto.
+      - destruct n0; simpl; [intros [= _ <- _ _]; auto|].
+        destruct (get_val s0 a0) as [v0|]; [|discriminate]. destruct (v_jailed v0); [discriminate|].
+        destruct (power_of (v_tokens v0) =? 0); [discriminate|].
+        match goal with |- context[let '(q1, q2) := ?X in _] => destruct X as [sq accq] end.
+        intros Ex. eapply IHi; [|exact Ex]. apply adel_sorted; auto. }
+    eapply G; [exact SS|exact E]. }
+  assert (Del : forall (l : amap Z) m, asorted m -> aget (apply_updates (map (fun p => (fst p, 0)) l) m) a =
+                                  if mem a (map fst l) then None else aget m a).
+  { induction l as [|[b x] l IHl]; intros m Sm; cbn [map apply_updates fold_left]; [reflexivity|].
+    unfold apply_update at 2. cbn [fst snd]. change (0 =? 0) with true. cbv iota. fold (apply_updates (map (fun p => (fst p, 0)) l) (adel m b)).
+    rewrite IHl by (apply adel_sorted; auto). cbn [mem existsb map fst]. fold (mem a (map fst l)).
+    rewrite aget_adel by auto. destruct (beqb a b) eqn:Bab.
+    - apply beqb_eq in Bab. subst b. cbn [orb]. rewrite beqb_refl. destruct (mem a (map fst l)); reflexivity.
+    - cbn [orb]. destruct (mem a (map fst l)); auto. destruct (beqb b a) eqn:Bba; auto. apply beqb_eq in Bba. subst. rewrite beqb_refl in Bab. discriminate. }
+  rewrite Del by exact R0.
+  destruct (mem a walked) eqn:Mw.
+  - apply mem_in in Mw. destruct (R2 a Mw) as (v & Ev & Ep).
+    assert (NL : mem a (map fst leftover) = false).
+    { apply mem_notin. intros Hin. destruct (in_keys_aget _ _ SL Hin) as (x & Ex). rewrite R1 in Ex.
+      rewrite (proj2 (mem_in a walked) Mw) in Ex. discriminate. }
+    rewrite NL, Ep. unfold get_val. rewrite Ev. reflexivity.
+  - pose proof (proj1 (mem_notin a walked) Mw) as Nw. rewrite (R3 a Nw).
+    destruct (aget (prevpow s) a) as [x|] eqn:Ex.
+    + assert (YL : mem a (map fst leftover) = true).
+      { apply mem_in. apply in_map_iff. exists (a, x). split; auto. apply aget_in. rewrite R1, Mw. exact Ex. }
+      rewrite YL. reflexivity.
+    + destruct (mem a (map fst leftover)); reflexivity.
+Qed.
